@@ -19,9 +19,10 @@ entries and is therefore never on a face of a box with integer corners (`Half`, 
     `connectors.node_id.isin(x.nodes.node_id)`;
   - `Dotprops`: boolean mask on the points, connectors attached to their nearest point (`x.snap`) and kept by
     `point.isin(arange[mask])`, then `point` is re-indexed;
-  - `MeshNeuron`: vertex indices `arange[mask]`; connectors attached to their nearest vertex, kept by
-    `vertex_id.isin(subset)` and re-indexed with `dict(zip(subset, arange(len(subset))))`; `submesh` keeps the
-    faces whose three vertices are all in `subset` and only the vertices referenced by a kept face;
+  - `MeshNeuron`: vertex indices `arange[mask]`; `submesh` keeps the faces whose three vertices are all in `subset`
+    and only the vertices referenced by a kept face (`kept`); connectors attached to their nearest vertex, kept by
+    `vertex_id.isin(kept)` and re-indexed with `dict(zip(kept, arange(len(kept))))` (since the `fix:` commit that
+    re-indexes against the surviving vertices; before, `subset` was used and `vertex_id` went stale);
 * dict / list of volumes → `data[name] = in_volume(x, volume[name], …)` in a loop over the dict;
 * `intersection_matrix` → one row per volume name, one column per neuron, cell = attribute of the pruned neuron.
 
@@ -348,7 +349,7 @@ structure MeshOut where
   kept : List Nat
   /-- kept faces (original vertex indices) -/
   faces : List Face
-  /-- kept connectors with the `vertex_id` the code writes: position in `subset`, not in `kept` -/
+  /-- kept connectors (those whose vertex survives) with the `vertex_id` the code writes: position in `kept` -/
   conns : List (Int × Nat)
   /-- `subset`: the vertices the volume test selected -/
   subset : List Nat
@@ -357,8 +358,8 @@ deriving DecidableEq, Repr, Inhabited
 /-- `subset_neuron(mesh, subset=mask)`: `_subset_meshneuron` + `submesh` -/
 def subsetMesh (m : Mesh) (subset : List Nat) : MeshOut :=
   { kept := submeshVerts m subset, faces := m.faces.filter (·.allIn subset),
-    conns := (m.conns.filter fun c => subset.contains (attach m.verts c)).map
-      fun c => (c.cid, subset.idxOf (attach m.verts c)),
+    conns := (m.conns.filter fun c => (submeshVerts m subset).contains (attach m.verts c)).map
+      fun c => (c.cid, (submeshVerts m subset).idxOf (attach m.verts c)),
     subset := subset }
 
 def allMesh (m : Mesh) : MeshOut :=
